@@ -208,8 +208,10 @@ def resToJson : Except Err Val → Json
 def strOfVal : Val → String | .str s => s | _ => ""
 
 /-- one requested item -/
-def item (O : Oracle) (t : Ty) (v : Val) (w : String) : Json :=
+def item (O : Oracle) (t : Ty) (dflt : Option Val) (v : Val) (w : String) : Json :=
   match w with
+  | "parseObjD" => resToJson (parseObjD O t dflt v)
+  | "parseArgD" => resToJson (parseArgD O t dflt (strOfVal v))
   | "adapt" => resToJson (adapt O false none t v)
   | "check" => resToJson (checkType O t v)
   | "parseObj" => resToJson (parseObj O t v)
@@ -247,7 +249,10 @@ def handle (j : Json) : Json :=
       let wants := match j.getObjVal? "want" with
         | .ok (.arr xs) => xs.toList.filterMap fun (x : Json) => match x with | Json.str s => some s | _ => none
         | _ => []
-      pure (Json.mkObj (wants.map fun w => (w, item O t v w)))
+      let dflt : Option Val := match j.getObjVal? "dflt" with
+        | .ok d => (match valOfJson d with | .ok x => some x | .error _ => none)
+        | .error _ => none
+      pure (Json.mkObj (wants.map fun w => (w, item O t dflt v w)))
   match r with
   | .ok j => j
   | .error e => Json.mkObj [("bad-input", .str e)]
